@@ -10,7 +10,7 @@ UTF16LE(cps) == IF cps = <<>> THEN <<>>
                      IN (IF Len(u) = 1 THEN LE(u[1], 2) ELSE LE(u[1], 2) \o LE(u[2], 2)) \o UTF16LE(Tail(cps))
 
 (* simple case mapping: ASCII plus a table of unambiguous 1:1 pairs (upper, lower) *)
-CasePairs == { <<201, 233>>, <<1046, 1078>>, <<913, 945>>, <<196, 228>> }   \* E-acute, Cyrillic ZHE, Greek ALPHA, A-umlaut
+CasePairs == { <<201, 233>>, <<1046, 1078>>, <<913, 945>>, <<196, 228>>, <<66560, 66600>> }   \* E-acute, Cyrillic ZHE, Greek ALPHA, A-umlaut, Deseret LONG I (outside the BMP: a surrogate pair in UTF-16)
 LowerCP(c) == IF c >= 65 /\ c <= 90 THEN c + 32
               ELSE IF \E p \in CasePairs : p[1] = c THEN (CHOOSE p \in CasePairs : p[1] = c)[2] ELSE c
 UpperCP(c) == IF c >= 97 /\ c <= 122 THEN c - 32
